@@ -409,6 +409,10 @@ class ModuleVistor(NodeVisitor):
                 # A module can only live in a package that is not below it:
                 # keep it where it is and treat the import as a plain alias.
                 return False
+            elif isinstance(ob.parent, model.Class):
+                # The name is an alias of a member of a class (C{name = Class.member}):
+                # the member belongs to its class, only module-level objects are moved.
+                return False
             else:
                 if origin_module.all is None or origin_name not in origin_module.all:
                     self.system.msg(
